@@ -9,6 +9,7 @@ import (
 	"fmt"
 	"strings"
 	"time"
+	"verif/internal/run"
 )
 
 // Post holds optional (pointer) fields.
@@ -84,7 +85,7 @@ func registerPointerFuncs() {
 // as a second stage, and through the type-identity function.
 func (g *gen) enumPointers() []Case {
 	var out []Case
-	for env := 0; env < nEnvs; env++ {
+	for env := 0; env < run.Pick(1, nEnvs); env++ { // quick: environment 0
 		e := envOf(env)
 		addE := func(x Expr) {
 			xc := x
